@@ -325,8 +325,13 @@ def resolve_styles(k: Ctx, adoc: AbsDoc, el: AbsEl, kind: str, interval, t, pare
   # disparity: a horizontal offset -> rw
   dp, dp_c = vals["Disparity"]
   if is_len(dp):
-    r = resolve(dp, ("L", 100, "rw"), None, k.c_w, k.px_w)
-    vals["Disparity"] = (r, dp_c and r is not None)
+    if dp[2] == "em":
+      # em: the element's own computed font size (a root-relative height)
+      r, c_ = own_font(dp)
+      vals["Disparity"] = (r, dp_c and c_ and r is not None)
+    else:
+      r = resolve(dp, ("L", 100, "rw"), None, k.c_w, k.px_w)
+      vals["Disparity"] = (r, dp_c and r is not None)
 
   # ruby reserve
   rr, rr_c = vals["RubyReserve"]
